@@ -90,10 +90,12 @@ def evaluate(ctx, cname, it):
         n1 = A("_test_data_size") + const(1)
         full = S("n >= A_window_size", {"n": n1})
         ctx.ob("GRD", site, "streaming: silent until window_size test samples have arrived", q.has_guard(kl[0], full), "", kl[0])
-        st = [e for e in tr.stores("_test_data_size") if e.func.qualname == site]
+        # the stores of the evaluation itself or of a helper it calls (not those of reset() / the reference set-up)
+        own = lambda e: q.stack_has(e, site) and not any(f.name in ("reset", "_inner_set_reference", "set_reference") for f in e.stack)
+        st = [e for e in tr.stores("_test_data_size") if own(e)]
         ctx.ob("FRM", site, "streaming: test window size counts one per sample", len(st) == 1 and T.same(st[0].value, n1), "", st[0] if st else None)
         # persistence: consecutive samples above the bound
-        cs = [e for e in tr.stores("_drift_counter") if e.func.qualname == site]
+        cs = [e for e in tr.stores("_drift_counter") if own(e)]
         inc = [e for e in cs if T.same(e.value, A("_drift_counter") + const(1))]
         zero = [e for e in cs if e.value == const(0)]
         ctx.ob("PAIR", site, "counter incremented when the divergence is above the bound", len(inc) == 1 and q.has_guard(inc[0], above), "", inc[0] if inc else None)
@@ -136,9 +138,9 @@ def reference(ctx, cname, it):
     if ck:
         want = A("window_size") if it == "stream" else atom(("call", "sum", (lc[0].result,), ())) if lc else None
         ctx.ob("FRM", site, "bootstrap sample size is %s [%s]" % ("window_size" if it == "stream" else "the reference size", cname), want is not None and ck[0].args[1] == want, q.short(ck[0].args[1], 80), ck[0])
-        st = [e for e in tr.stores("_critical_dist") if e.func.qualname == site]
+        st = [e for e in tr.stores("_critical_dist") if q.within(e, site, ("reset",))]
         ctx.ob("FRM", site, "bound stored as the critical distance [%s]" % cname, len(st) == 1, "")
-    rs = [e for e in q.find_calls(tr, cname + ".reset") if q.stack_has(e, site) or e.func.qualname == site]
+    rs = [e for e in q.find_calls(tr, cname + ".reset") if q.stack_has(e, site) or q.stack_has(e, site)]
     ctx.ob("ORD", site, "detector state is reset before the new tree is installed [%s]" % cname, bool(rs) and bool(bd) and rs[0].seq < bd[0].seq, "")
     part = [e for e in tr.calls() if e.callee == ("new", "KDQTreePartitioner")]
     ok = len(part) == 1 and dict(part[0].kwargs).get("count_ubound") == A("count_ubound") and dict(part[0].kwargs).get("cutpoint_proportion_lbound") == A("cutpoint_proportion_lbound")
@@ -162,17 +164,18 @@ def _mchain(t):
 def accumulation(ctx, cname, it):
     site = DET + "._evaluate_kdqtree"
     tr = ctx.trace(cname, "update", assume={"_drift_state": None, "_kdqtree": None}, nonnull=("X",))
-    st = [e for e in tr.stores("_ref_data") if e.func.qualname == site]
+    inner = lambda e: q.stack_has(e, site) and not any(f.name in ("reset", "_inner_set_reference", "set_reference") for f in e.stack)
+    st = [e for e in tr.stores("_ref_data") if inner(e)]
     ary = None
     cs = [e for e in tr.calls() if e.d.get("fi") is not None and e.fi.qualname == site]
     if cs:
         ary = cs[0].args[1] if len(cs[0].args) > 1 and cs[0].args[0].single_atom() == ("self",) else cs[0].args[0]
     ok = False
-    if len(st) == 1 and ary is not None:
+    if 1 <= len(st) <= 2 and ary is not None:
         rd = A("_ref_data")
         stacked = atom(("call", "numpy.vstack", (atom(("list", (rd, ary))),), ()))
-        v = st[0].value
-        leaves = list(q.ite_leaves(v))
+        # one store of a conditional value, or one store per branch
+        leaves = [(tuple(c_) + (tuple(q.guards(e)) if len(st) > 1 else ()), l) for e in st for c_, l in q.ite_leaves(e.value)]
         ok = len(leaves) == 2 and {T.akey(l) for _c, l in leaves} == {T.akey(stacked), T.akey(ary)}
         if ok:
             for c_, l in leaves:
@@ -186,7 +189,7 @@ def accumulation(ctx, cname, it):
         ctx.ob("FWD", cname + ".update", "the data evaluated is a private copy of the validated input [%s]" % cname,
                xv is not None and ary == atom(("call", "copy.deepcopy", (xv,), ())), q.short(ary, 80) if ary is not None else "", cs[0])
     site2 = DET + "._inner_set_reference"
-    clr = [e for e in tr.stores("_ref_data") if e.func.qualname == site2]
+    clr = [e for e in tr.stores("_ref_data") if q.within(e, site2, ("reset",))]
     empty = atom(("call", "numpy.array", (atom(("list", ())),), ()))
     if it == "stream":
         ctx.ob("PAIR", site2, "streaming: the collected window is released once the tree is built", len(clr) == 1 and clr[0].value == empty, "", clr[0] if clr else None)
@@ -195,7 +198,7 @@ def accumulation(ctx, cname, it):
     # test path: the divergence of this update is what is published
     tr2 = ctx.trace(cname, "update", assume={"_drift_state": None}, nonnull=("X",))
     kl = [e for e in tr2.calls() if e.callee[0] == "foreign" and e.callee[2] == "kl_distance"]
-    td = [e for e in tr2.stores("_test_dist") if e.func.qualname == site]
+    td = [e for e in tr2.stores("_test_dist") if inner(e)]
     ctx.ob("FRM", site, "the divergence computed is the one published as test distance [%s]" % cname, len(kl) == 1 and len(td) == 1 and td[0].value == kl[0].result, "", td[0] if td else None)
     fl = [e for e in tr2.calls() if e.callee[0] == "foreign" and e.callee[2] == "fill"]
     tree = A("_kdqtree")
@@ -251,7 +254,7 @@ def bootstrap_chain(ctx):
     ctx.ob("PARTITION", site, "the two histograms come from the two halves of the same draw", sorted(map(T.akey, [s for s in seen if s is not None])) == sorted(map(T.akey, want_halves)), "")
     # the pair appended is (first half, second half) and the divergence is taken in that order
     en = [e for e in tr.calls() if e.callee == ("lib", "scipy.stats.entropy")]
-    ap = [e for e in tr.of("localmut") if e.how == "method:append" and e.func.qualname == site]
+    ap = [e for e in tr.of("localmut") if e.how == "method:append" and q.stack_has(e, site)]
     ok = len(ap) == 1 and len(en) == 1
     if ok:
         pr = ap[0].value.single_atom()[1][0].single_atom()
@@ -275,7 +278,7 @@ def wrappers(ctx):
                 ok = ok and tuple(e.args[:3]) == (P("tree_id1"), P("tree_id2"), P("max_depth"))
         ctx.ob("FWD", DET + ".to_plotly_dataframe", "column names given by the caller are used, else those seen at validation [%s]" % cname, ok, "")
     ti = ctx.trace("KdqTreeStreaming", "__init__")
-    rs = [e for e in ti.raises() if e.exc == "ValueError" and e.func.qualname == "KdqTreeStreaming.__init__"]
+    rs = [e for e in ti.raises() if e.exc == "ValueError" and q.stack_has(e, "KdqTreeStreaming.__init__")]
     ws = P("window_size")
     bad = T.mk_or([T.mk_not(atom(("call", "isinstance", (ws, atom(("global", "builtins.int"))), ()))), T.mk_cmp("<", ws, const(1))])
     ok = len(rs) == 1 and any(g == bad or q.pred_equiv(g, bad) for g in [T.mk_and(guards(rs[0]))] + guards(rs[0]))
